@@ -22,7 +22,7 @@ LEAN_DIR = os.path.join(VERIF, "lean")
 # a run against another tree (VERIF_REPO=…, used to try seeded changes) must not overwrite the evidence of /repo
 _ALT = os.path.abspath(REPO) != "/repo"
 EVIDENCE_DIR = os.path.join(CACHE, "alt_evidence") if _ALT else os.path.join(VERIF, "evidence")
-REPLAY_DIR = os.path.join(VERIF, "replays")
+REPLAY_DIR = os.path.join(CACHE, "alt_replays") if _ALT else os.path.join(VERIF, "replays")   # runs against another tree (VERIF_REPO) never touch the committed dirs
 NCPU = os.cpu_count() or 4
 
 GUARD = "GIVARO_VERIF"
